@@ -26,9 +26,14 @@ CLAIMS = {
         "states as C01 with a symbolic incoming row (node present/absent, entity name present/absent, local version none/same room/other room, "
         "previous author none/any) and symbolic deletion batches; z3 shows that every accepted row's stated author is granted the needed right at the "
         "row's own date (all-rows right when it replaces or deletes another author's row, in both rooms on a room change, size within the limit), that "
-        "returned deletion records are unchanged input records, and that a record's verdict does not depend on the rest of the batch or on map order.",
-   note="Kernel only: the model/room filter of GraphDatabase::add_nodes/add_edges, the inline edge right check in process_message and the signature "
-        "thread pool are async bodies over service handles and are outside this claim (DESIGN.md §3 C02). Same trusted base as C01.",
+        "returned deletion records are unchanged input records, and that a record's verdict does not depend on the rest of the batch or on map order. "
+        "Received references: the whole ingestion pipeline - GraphDatabase::add_edges (an async fn: entity-name lookup, the closure it hands to the reader pool run on a "
+        "modelled connection whose existence tests on _node are answered by uninterpreted row_is_stored / room_of_stored_row / entity_of_stored_row), the AddEdges message, "
+        "and the AddEdges arm of AuthorisationService::process_message up to the write message - is executed on 1-2 symbolic references; z3 shows a reference reaches "
+        "the writer only if its author holds the own-rows right in the synchronised room at the reference's date AND its source row is stored in that room, and that a "
+        "single reference satisfying both is not refused. Counterexamples and samples are replayed through the public API of a real database (add_edges, then a query).",
+   note="Kernel only: the model filter of GraphDatabase::add_nodes and the signature thread pool are outside this claim (DESIGN.md §3 C02). The reader SQL understood "
+        "by the model is an existence test on _node by id / _entity / room_id; anything else is reported as not modelled. Same trusted base as C01.",
    design='DESIGN.md §3 C02'),
  'C12': dict(
    level='model_checking',
